@@ -45,7 +45,7 @@ def required_cells(tier):
             "action:store_split", "action:extend_match", "extend_match:override", "extend_match:no-override", "rule:two-flags",
             "pass-with-modes", "user-extends-builtin", "user-redefines-as-alias", "implicit==explicit", "alias==target",
             "repeat-parse", "implicit-option:attached-value", "builtin:gcc", "builtin:clang", "builtin:icx", "builtin:nvcc", "e2e:_OPENMP", "e2e:__CUDA_ARCH__",
-            "e2e:__SYCL_DEVICE_ONLY__", "unknown-compiler"]
+            "e2e:__SYCL_DEVICE_ONLY__", "e2e:passes-differ-in-include-files", "unknown-compiler"]
 
 
 # ------------------------------------------------------------------ TOML --
@@ -504,6 +504,81 @@ def end_to_end(ctx, config, builtin, rng, work):
             acc.held(cells=cells, cls="e2e", nontrivial={"entries": entries})
 
 
+E2E_USER = {
+    "occ": {"options": ["-DOCC=1"],
+            "parser": [{"flags": ["-foffload", "--offload"], "action": "store_split", "sep": ",", "format": "off-$value", "dest": "passes"},
+                       {"flags": ["-fextra"], "action": "append_const", "dest": "modes", "const": "extra"}],
+            "modes": [{"name": "extra", "include_files": ["m.h"], "include_paths": ["modeinc"]}],
+            "passes": [{"name": "off-a", "include_files": ["a.h"]}, {"name": "off-b", "include_files": ["b.h"]},
+                       {"name": "off-c", "include_files": ["b.h"], "defines": ["TARGET_C"]}]},
+}
+E2E_USER_SRC = """cbi_m_u_1;
+#ifdef TARGET_A
+cbi_m_u_3;
+#endif
+#ifdef TARGET_B
+cbi_m_u_6;
+#endif
+#if defined(TARGET_C) && defined(TARGET_B)
+cbi_m_u_9;
+#endif
+#ifdef FROM_MODE
+cbi_m_u_12;
+#include <deep.h>
+#endif
+#if !defined(TARGET_A) && !defined(TARGET_B)
+cbi_m_u_16;
+#endif
+"""
+
+
+def end_to_end_user(ctx, config, builtin, work):
+    """Passes / modes that differ only in include files or include paths: every pass must be preprocessed."""
+    acc = ctx.acc
+    d = os.path.join(work, "e2eu")
+    os.makedirs(os.path.join(d, "modeinc"), exist_ok=True)
+    for name, text in (("a.h", "#define TARGET_A 1\n"), ("b.h", "#define TARGET_B 1\n"), ("m.h", "#define FROM_MODE 1\n"),
+                       ("modeinc/deep.h", "cbi_m_deep_1;\n"), ("src.c", E2E_USER_SRC)):
+        with open(os.path.join(d, name), "w") as f:
+            f.write(text)
+    load_user(config, d, E2E_USER)
+    compilers = ccmodel.merge(builtin, E2E_USER)
+    src = os.path.join(d, "src.c")
+    cmds = [["occ"], ["occ", "-foffload=a,b"], ["occ", "--offload=b"], ["occ", "-foffload=a", "-fextra"], ["occ", "-foffload=c,b"],
+            ["occ", "-fextra"], ["occ", "-foffload=b,a", "-DX"]]
+    for i, cmd in enumerate(cmds):
+        if not ctx.mine(i):
+            continue
+        entries = [{"file": src, "directory": d, "arguments": cmd + ["-c", src]}]
+        db = os.path.join(d, "db.json")
+        with open(db, "w") as f:
+            json.dump(entries, f)
+        problems = []
+        try:
+            conf = config.load_database(db, d)
+            state, _ = cbi.run_find(d, {"p": conf})
+            used = cbi.used_lines(state, src, "p")
+            exp, status = ccmodel.expected(compilers, cmd[0], cmd[1:] + ["-c", src])
+            live = set()
+            for p_, v in exp.items():
+                incs = v["cmd"][2] + v["extra"][2]
+                paths = [("I", os.path.join(d, x)) for x in v["cmd"][1] + v["extra"][1]]
+                g = gcc.preprocess(src, defines=v["cmd"][0] + v["extra"][0], search=paths, includes=incs, cwd=d)
+                if not g["ok"]:
+                    raise RuntimeError("gcc: " + g["stderr"][:200])
+                live |= set(g["markers"])
+            want = {int(m.rsplit("_", 1)[1]) for m in live if m.startswith("cbi_m_u_")}
+            got = {ln for ln in used if E2E_USER_SRC.split("\n")[ln - 1].startswith("cbi_m_u_")}
+            if want != got:
+                problems.append({"kind": "end-to-end attribution over passes (include files / paths)", "command": cmd, "expected": sorted(want), "observed": sorted(got)})
+        except Exception as e:
+            problems.append({"kind": "exception", "command": cmd, "observed": f"{type(e).__name__}: {e}"})
+        if problems:
+            acc.violated({"input": {"entries": entries}, "witness": {"entries": entries, "problems": problems}}, cells={"e2e:passes-differ-in-include-files"}, cls="e2e")
+        else:
+            acc.held(cells={"e2e:passes-differ-in-include-files"}, cls="e2e", nontrivial={"entries": entries})
+
+
 def run_shard(ctx):
     from codebasin import config
     from cbimon.core import REPO
@@ -578,6 +653,7 @@ def run_shard(ctx):
             relations(ctx, config, builtin, user, r2, cells)
             implicit_explicit(ctx, config, builtin, user, r2, work)
         end_to_end(ctx, config, builtin, ctx.rng("e2e"), work)
+        end_to_end_user(ctx, config, builtin, work)
     finally:
         os.chdir(old)
         try:
